@@ -537,7 +537,34 @@ pub fn build_case(choices: Vec<u32>, cfg: &GraphCfg) -> GraphCase {
     }
     let collect_all = ch.chance(1, 2);
     let mode = if cfg.two_pass_only { 0 } else { [0u8, 0, 1, 2][ch.pick(4)] };
+    let mut raw_programs = Vec::new();
+    if cfg.hostile && ch.chance(1, 5) && !programs.is_empty() {
+        let i = ch.pick(programs.len());
+        let mut bytes = crate::model::asm::encode(&programs[i]);
+        match ch.pick(5) {
+            // truncated trailing Push
+            0 => {
+                bytes.push(0x01);
+                bytes.extend(std::iter::repeat(0x82).take(ch.pick(8)));
+            }
+            // invalid opcode somewhere
+            1 => {
+                let at = ch.pick(bytes.len() + 1);
+                bytes.insert(at, [0x00u8, 0xff, 0x0f, 0x92, 0x7c][ch.pick(5)]);
+            }
+            // cut in the middle
+            2 => {
+                let keep = ch.pick(bytes.len() + 1);
+                bytes.truncate(keep);
+            }
+            // a post-read opcode byte that only exists inside an unparsable tail
+            3 => bytes.extend([0x00, 0x82]),
+            _ => bytes = (0..ch.pick(12)).map(|_| ch.pick(256) as u8).collect(),
+        }
+        raw_programs.push((i, bytes));
+    }
     GraphCase {
+        raw_programs,
         programs,
         predicates,
         solutions,
@@ -606,5 +633,6 @@ pub fn build_wide_case(choices: Vec<u32>) -> GraphCase {
         pre_state: MapSpec::default(),
         collect_all: ch.chance(1, 3),
         mode: [0u8, 1, 2][ch.pick(3)],
+        raw_programs: vec![],
     }
 }
